@@ -6,6 +6,7 @@
  */
 #include "config.h"
 #include "util/util.h"
+#include "sqfs/dir.h"
 #include "fstree.h"
 
 #include <string.h>
@@ -80,6 +81,20 @@ static tree_node_t *mknode(fstree_t *fs, tree_node_t *parent, const char *name,
 	tree_node_t *n;
 	size_t size;
 	char *ptr;
+
+	if (S_ISDIR(ent->mode) &&
+	    !(ent->flags & SQFS_DIR_ENTRY_FLAG_HARD_LINK)) {
+		/* the readers do not follow a tree that is nested deeper */
+		size = 1;
+
+		for (n = parent; n->parent != NULL; n = n->parent)
+			++size;
+
+		if (size > SQFS_MAX_DIR_NESTING) {
+			errno = ENAMETOOLONG;
+			return NULL;
+		}
+	}
 
 	size = sizeof(tree_node_t) + name_len + 1;
 	if (extra != NULL)
